@@ -271,6 +271,8 @@ def check(run):
     p06.retransmit_route_rule(run)
     run.clause('every segment crosses the hops of ITS direction: channel::hops[i] leads to ep[i] (sender\'s outgoing route first, receiver\'s incoming route last), sockets send on hops[remote_idx(own endpoint)]')
     channel_orientation_rules(run)
+    run.clause('routes are composed in travel order and in full: route::prepend/append keep the order of the hops they add; the UDP sender prepends its whole outgoing route')
+    route_algebra_rules(run)
     run.floor('R10', 2)
     run.floor('R4', 3)
 
@@ -429,3 +431,69 @@ def channel_orientation_rules(run):
                       'the accepted socket installs itself at the end of hops[%s]; the route that leads to it is hops[%d]' % (j, 1 - k), 'own end of hops[%d]' % (1 - k))
     if na < 2:
         run.broke('tcp::socket::internal_connect: ep[]/hops[] uses not found')
+
+
+def _reversing_loops(fn):
+    """range-for loops (forward iteration) whose body inserts the loop variable at the FRONT of a container (push_front,
+    insert(begin(), x), route::prepend(x)): the copy comes out in reverse order"""
+    out = []
+    for l in fn.all_nodes():
+        if l['k'] != 'rangefor':
+            continue
+        lv = l.get('var')
+        did = lv.get('did') if isinstance(lv, dict) else None
+        for c in walk(l.get('body') or l):
+            if c['k'] != 'call':
+                continue
+            nm = (q.callee_name(c) or '').split('::')[-1]
+            front = q.canon_op(fn, c) == 'push_front' or nm in ('push_front', 'emplace_front', 'prepend')
+            if not front:
+                continue
+            uses = [x for a in c.get('args', []) for x in walk(a) if x['k'] == 'ref' and x.get('did') == did]
+            if uses or did is None:
+                out.append((l, c))
+    return out
+
+
+def route_algebra_rules(run):
+    """route composition keeps the hops in travel order: prepend(route)/append(route) insert the other route's hops as
+    one range at the front/back (or element-wise in an order-preserving way), and the UDP sender prepends its WHOLE
+    outgoing route (the route overload), not a single hop of it."""
+    fx = run.fx
+    R = 'sim::route'
+    n = 0
+    for name, pos in (('prepend', 'hops.begin()'), ('append', 'hops.end()')):
+        for f in fx.fn(R + '::' + name, raw=True):
+            if 'route' not in f.sig.split('(')[1]:
+                continue
+            n += 1
+            run.touch(f)
+            rng = [c for c in f.calls() if c['k'] == 'call' and (q.callee_name(c) or '').split('::')[-1] == 'insert' and q.render(f, c.get('obj')) == 'hops' and len(c.get('args') or []) == 3]
+            ok_rng = bool(rng) and all(q.render(f, c['args'][0]) == pos and q.render(f, c['args'][1]).endswith('hops.begin()') and q.render(f, c['args'][2]).endswith('hops.end()') for c in rng)
+            rev = _reversing_loops(f)
+            loops = [l for l in f.all_nodes() if l['k'] in ('rangefor', 'for', 'while')]
+            if name == 'append':
+                ok = ok_rng or (bool(loops) and not rev)
+            else:
+                ok = ok_rng and not rev
+            why = ('each hop of the other route is inserted at the front in forward iteration (line %s): the hops end up in REVERSE order, so a packet crosses e.g. the modem queue before the NAT instead of after it' % rev[0][1].get('l')) if rev else \
+                  'the other route\'s hops are not inserted as the range [r.hops.begin(), r.hops.end()) at %s' % pos
+            run.check(ok, 'R2k', 'route-order', '%s::%s%s' % (R, name, f.sig), f.loc(), why, 'the other route\'s hops are inserted in order at %s' % pos)
+    if n < 2:
+        run.broke('route::prepend(route)/append(route) not found (%d)' % n)
+    # no repo function copies a sequence in reverse by front-inserting in forward iteration
+    nrev = 0
+    for f in fx.repo_functions():
+        if q.top_function(fx, f).cls == R:
+            continue
+        for l, c in _reversing_loops(f):
+            nrev += 1
+            run.violation('R2k', 'route-order', '%s: %s' % (q.top_function(fx, f).norm, q.render(f, c)[:60]), f.loc(c), 'front insertion of the loop variable in a forward range-for reverses the sequence')
+    st = fx.fn1('sim::asio::ip::udp::socket::send_to_impl')
+    run.touch(st)
+    pre = [c for c in st.calls() if (q.callee_name(c) or '') == R + '::prepend']
+    okp = bool(pre) and all('route' in (c.get('csig') or '') and 'shared_ptr' not in (c.get('csig') or '') and
+                            q.render(st, c['args'][0]) == 'm_io_service.get_outgoing_route(m_bound_to.address())' for c in pre)
+    run.check(okp, 'R4', 'udp-full-outgoing-route', st.norm, st.loc(pre[0]) if pre else st.loc(),
+              'the datagram\'s route is not prefixed with the sender\'s WHOLE outgoing route (%s): hops after the first one - a NAT behind a modem, a second queue - are skipped, so the receiver sees the private source address or the datagram arrives early'
+              % (q.render(st, pre[0])[:90] if pre else 'no prepend'), 'prepend(get_outgoing_route(own address)) - the route overload')
